@@ -113,7 +113,7 @@ def check_loc(case, rec):
 
 @st.composite
 def reject_case(draw, tier="quick"):
-    what = draw(st.sampled_from(["shape", "bbox_len", "bbox_type"]))
+    what = draw(st.sampled_from(["shape", "shape2d", "bbox_len", "bbox_type"]))
     n = draw(st.integers(0, 6))
     lon = draw(st.lists(gen.dyadic(3, -180, 180), min_size=n, max_size=n))
     m = n
@@ -126,12 +126,25 @@ def reject_case(draw, tier="quick"):
     else:
         bbox = draw(st.sampled_from(["-180,-90,180,90", 5, {"minx": 0}]))
     lat = draw(st.lists(gen.dyadic(3, -90, 90), min_size=m, max_size=m))
-    return {"what": what, "lon": lon, "lat": lat, "bbox": bbox}
+    out = {"what": what, "lon": lon, "lat": lat, "bbox": bbox}
+    if what == "shape2d":
+        # same number of elements, different shapes
+        a, b = draw(st.sampled_from([(2, 3), (1, 4), (3, 2), (2, 2), (1, 1), (4, 1)]))
+        out["lon"] = draw(st.lists(gen.dyadic(3, -180, 180), min_size=a * b, max_size=a * b))
+        out["lat"] = draw(st.lists(gen.dyadic(3, -90, 90), min_size=a * b, max_size=a * b))
+        out["lon_shape"] = [a, b]
+        out["lat_shape"] = draw(st.sampled_from([s for s in ([b, a], [a * b], [1, a * b], [a * b, 1]) if s != [a, b]]))
+    return out
 
 
 def check_reject(case, rec):
     rec.note(True, [case["what"]])
-    if case["what"] == "shape":
+    if case["what"] == "shape2d":
+        import numpy as np
+        rec.expect_raises("qartod.location_test(shape mismatch)", (ValueError,), _loc(),
+                          np.array(case["lon"], dtype="float64").reshape(case["lon_shape"]),
+                          np.array(case["lat"], dtype="float64").reshape(case["lat_shape"]))
+    elif case["what"] == "shape":
         rec.expect_raises("qartod.location_test(shape mismatch)", (ValueError,), _loc(), arr(case["lon"]), arr(case["lat"]))
     else:
         rec.expect_raises("qartod.location_test(bad bbox)", (Exception,), _loc(), arr(case["lon"]), arr(case["lat"]),
